@@ -50,7 +50,7 @@ pub enum Op {
     /// write of a stream made elsewhere; sink 0 = `ByteSink`, 1 = `MemSink<u64>`
     /// `again`: what the owner did with the `Stream` object before the judged write - 0 nothing, 1 wrote it
     /// once already (same kind of sink), 2 wrote it to the other kind of sink, counted and verified it,
-    /// 3 writes a frame-by-frame copy of it, 4 wrote it to a sink that failed half-way. The reference is always `again` = 0.
+    /// 3 writes a frame-by-frame copy of it, 4 wrote it to a sink that failed half-way, 5 wrote it once with provisional STREAMINFO values and finalised it afterwards. The reference is always `again` = 0.
     Write {
         w: Workload,
         sink: u8,
@@ -232,6 +232,11 @@ fn perform_inner(op: &Op, prep: Prepared) -> OpResult {
             if let Err(e) = r {
                 return OpResult::Err(format!("fill: {e}"));
             }
+            if *keep && *frame_number % 2 == 1 {
+                // the kept object is handed on as a clone made after the fill
+                let c = fb.clone();
+                fb = c;
+            }
             let out = match flacenc::encode_fixed_size_frame(&cfg, &fb, *frame_number, &si) {
                 Ok(f) => {
                     let mut sink = ByteSink::new();
@@ -286,6 +291,20 @@ fn perform_inner(op: &Op, prep: Prepared) -> OpResult {
                     let _ = st.write(&mut probe);
                     let mut failing = ReqSink(Core::failing(Some(probe.0.ops / 2), true));
                     std::hint::black_box(st.write(&mut failing).is_err());
+                }
+                5 => {
+                    // written once while its STREAMINFO still held provisional values (a flush before the
+                    // stream was finalised), then finalised through `stream_info_mut()` and written again
+                    let md5: Vec<u8> = st.stream_info().md5_digest().to_vec();
+                    let total = st.stream_info().total_samples();
+                    st.stream_info_mut().set_md5_digest(&[0xA5; 16]);
+                    st.stream_info_mut().set_total_samples(total / 2 + 1);
+                    let mut s = ByteSink::new();
+                    std::hint::black_box((st.write(&mut s).is_ok(), s.into_inner().len()));
+                    let mut back = [0u8; 16];
+                    back.copy_from_slice(&md5);
+                    st.stream_info_mut().set_md5_digest(&back);
+                    st.stream_info_mut().set_total_samples(total);
                 }
                 _ => {}
             }
@@ -662,7 +681,7 @@ fn gen_op(r: &mut Rng, w: Workload) -> Op {
             w,
             sink: r.below(2) as u8,
             precompute: r.chance(0.4),
-            again: if r.chance(0.5) { 0 } else { 1 + r.below(4) as u8 },
+            again: if r.chance(0.5) { 0 } else { 1 + r.below(5) as u8 },
         },
         9 => Op::WriteFailing {
             w,
